@@ -89,6 +89,10 @@ def r2_contiguity(ctx):
     cfg, o = ctx.cfg(body), ctx.origins(body)
     names = _cls_names(ctx)
     n_tw = 0
+    # when every caller holds Session.buffer across the call (R11.6), writes of different tasks cannot interleave whatever
+    # the granularity of the writer lock inside; the writer lock then only excludes close()'s shutdown
+    callers = [e for e in ctx.cg.callers(S + "write_with_padding") if e.kind == "call"]
+    serialised_by_buffer = bool(callers) and all(BUFFER_CLS_FIELD in _held_fields(ctx.P.bodies[e.src], Held(ctx.P.bodies[e.src], must=True), e.bb, names) for e in callers)
     for role in ("client", "server"):
         pruned = ctx.locks(role).pruned(body.name)
         must = Held(body, pruned=pruned, must=True)
@@ -96,9 +100,10 @@ def r2_contiguity(ctx):
         for c in locks:
             after = cfg.reach_after(c.bb, avoid_edges=pruned)
             again = [d for d in locks if d.bb in after]
-            ok = not again
+            ok = not again or serialised_by_buffer
             ctx.ob("R11.2", "%s|write_with_padding:single-writer-hold@%s" % (role, _ctx_label(body, c, o)), ok, c.site,
-                   "no second acquisition of Session.writer is reachable after this one" if ok else
+                   ("no second acquisition of Session.writer is reachable after this one" if not again else
+                    "Session.writer is re-acquired later, but every caller holds Session.buffer across the whole call, so no other frame write can interleave") if ok else
                    "Session.writer is acquired again (%s) on a path after this acquisition: the lock is released between two transport writes of one buffer, so another task's frame "
                    "can be written between the records of a split frame / between a frame and its padding" % again[0].site)
         for c in body.calls():
